@@ -21,11 +21,17 @@ RULE = ("boundary stream: innovation e1, S^-1 = t*I with t the binary64 threshol
         "{0.5,1.5,3,5,...} and disabled (NIS exact under any evaluation order; m in {2,8,18} have exactly representable thresholds); random "
         "stream: dense dyadic SPD S^-1 and dyadic innovations, m in 1..6; filter stream: generated filters' sensor_model with far/near "
         "readings (rejections), checking identity of the returned objects and the recorded innovation; distinct by (implementation, m, k, "
-        "input); non-trivial = m >= 2 or within 2 ulp of the boundary")
+        "input); non-trivial = m >= 2 or within 2 ulp of the boundary; badly-scaled stream (fixed inputs): sensors of 2 and 3 readings whose "
+        "positive-definite innovation covariance has eigenvalues 2^-40 ... 2^-80 apart (a very precise or a very vague reading beside an "
+        "ordinary one, diagonal and mixing sensor Jacobians), the outlier placed in the precise / ordinary reading at 1/4, 4 and 100 times "
+        "the limit, k in {0.5, 5, disabled}; decision of sensor_model against the NIS computed in exact rational arithmetic")
 NOTE = ["exact statement (C06.sqrt_free, discard_iff) is over Q/R; at the boundary the three implementations are compared with each other and "
         "with the binary64 instance of the threshold (Lean native Float, C sqrt); the exact model is compared only where the threshold is "
         "exactly representable or the NIS is farther than 1e-9 (relative) from it",
-        "C++ helper compiled with g++ against the Eigen stand-in (fixed summation order); generated C++ filter is covered by C07"]
+        "C++ helper compiled with g++ against the Eigen stand-in (fixed summation order); generated C++ filter is covered by C07",
+        "badly-scaled stream: z^T S^-1 z is the exact rational value for the binary64 inputs handed to the filter (S = H P H^T + Q inverted "
+        "by Gauss-Jordan over Q); only NIS a factor >= 4 away from the limit are placed, so rounding in the filter's own inverse cannot "
+        "change a correct decision; Python filter only (the C++ inverse in this harness is the Eigen stand-in's, not the library's)"]
 PARTIAL = ["agreement of binary64 and real-number decisions strictly inside the rounding band is reported, not proven"]
 
 KS = [0.5, 1.5, 3.0, 5.0]
@@ -251,7 +257,83 @@ def run(ctx):
                     ctx.fail(f"sensor-model-raises:{fk.exc_kind(e)}:own-model-reading", repr(e)[:300], case)
     generated_threshold(ctx)
     estimator_follows_its_threshold(ctx)
+    badly_scaled_innovation_covariance(ctx)
     return core.finish(ctx, audit, NOTE, RULE, PARTIAL)
+
+
+def badly_scaled_innovation_covariance(ctx):
+    """readings of very different precision in ONE sensor: the innovation covariance is positive definite with eigenvalues up to 2^-80
+    apart, and the outlier sits in the direction of the small eigenvalue. The decision is the one of the exact z^T S^-1 z (all inputs
+    fixed here; nothing is drawn from ctx.rng)"""
+    x, y, w = sympy.Symbol("x"), sympy.Symbol("y"), sympy.Symbol("w")
+    variants = []   # (label, state symbols, readings, noise, prior variances by state name, reading that carries the outlier)
+    for e in (40, 54, 60, 80):
+        s = F(1, 2 ** e)
+        variants.append((f"precise-reading-2^-{e}", [x, y], {"a": x, "b": y}, {"a": F(1), "b": s}, {"x": F(1), "y": s}, "b"))
+    s = F(1, 2 ** 60)
+    variants.append(("precise-reading-of-three", [w, x, y], {"a": x, "b": y, "c": w + x}, {"a": F(1), "b": s, "c": F(2)}, {"w": F(3), "x": F(1), "y": s}, "b"))
+    variants.append(("precise-reading-mixing-jacobian", [x, y], {"a": x + y, "b": y}, {"a": F(1), "b": s}, {"x": F(1), "y": s}, "b"))
+    variants.append(("vague-reading-2^60", [x, y], {"a": x, "b": y}, {"a": F(2 ** 60), "b": F(1)}, {"x": F(1), "y": F(1)}, "b"))
+    variants.append(("vague-reading-of-three", [w, x, y], {"a": x, "b": y, "c": 2 * w}, {"a": F(2 ** 70), "b": F(1, 2), "c": F(2 ** 66)},
+                     {"w": F(4), "x": F(1), "y": F(3, 2)}, "b"))
+    est = {"w": F(-3, 4), "x": F(3), "y": F(1, 2)}
+    for label, state, readings, noise, pvar, hot in variants:
+        d = gen.Definition(sympy.Symbol("dt"), state, [], [], {s_: s_ for s_ in state}, {"s": dict(readings)})
+        Ls = sorted(s_.name for s_ in state)
+        Lr = sorted(readings)
+        m = len(Lr)
+        pt = {"dt": F(1, 8), "state": {n: est[n] for n in Ls}, "control": {}, "cal": {}}
+        sub = eh.subs_map(d, pt)
+        P = [[pvar[a] if a == b else F(0) for b in Ls] for a in Ls]
+        hx = dict(zip(Lr, eh.oracle_vals(readings, Lr, sub)))
+        base = C05.oracle_update(d, readings, noise, sub, P, [est[n] for n in Ls], hx)
+        Si = eh.minv(base["S"])
+        hot_i = Lr.index(hot)
+        for k in (0.5, 5.0, None):
+            try:
+                ekf = eh.compile_ekf(d, {}, {"s": noise}, {}, filtering=k)
+            except Exception as e:
+                ctx.fail(f"compile-ekf-raises:{fk.exc_kind(e)}:badly-scaled", f"compile_ekf refuses a valid definition: {e!r}"[:300],
+                         {"def": d.describe(), "noise": {r: str(v) for r, v in noise.items()}})
+                continue
+            limit = (5.0 if k is None else k) * math.sqrt(2 * m) + m
+            for factor in (0.25, 4.0, 100.0):
+                # the outlier: only the `hot` reading is off, by the distance at which the NIS is about factor * limit
+                off = math.sqrt(factor * limit / float(Si[hot_i][hot_i]))
+                z = {r: F(float(hx[r]) + (off if r == hot else 0.0)) for r in Lr}
+                want = C05.oracle_update(d, readings, noise, sub, P, [est[n] for n in Ls], z)
+                nis = float(want["nis"])
+                case = {"def": d.describe(), "noise": {r: str(v) for r, v in noise.items()}, "k": k, "point": eh.point_json(pt), "P": eh.mat_json(P),
+                        "z": {r: core.frac_str(v) for r, v in z.items()}, "nis": nis, "stream": "badly-scaled", "variant": label}
+                ctx.case(case, True); ctx.count("stream=badly-scaled"); ctx.count(f"badly-scaled:{label.split('-2^')[0]}")
+                thr = None if k is None else limit
+                if thr is not None and abs(nis - thr) <= 1e-7 * (1 + thr):
+                    ctx.count("inside_rounding_band"); continue
+                should = thr is not None and nis > thr
+                ctx.count("badly-scaled:" + ("disabled" if k is None else "must-discard" if should else "must-use"))
+                st, cv = eh.state_obj(ekf, pt), eh.cov_obj(ekf, P)
+                zr = ekf.make_reading("s", **{r: float(v) for r, v in z.items()})
+                snap = (st.data.copy(), cv.data.copy())
+                try:
+                    with fk.quiet():
+                        res = ekf.sensor_model(st, cv, sensor_key="s", sensor_reading=zr)
+                except Exception as e:
+                    ctx.fail(f"sensor-model-raises:{fk.exc_kind(e)}:badly-scaled", f"sensor_model raises {e!r}"[:300], case)
+                    continue
+                unchanged = np.array_equal(res.state.data, snap[0]) and np.array_equal(res.covariance.data, snap[1])
+                moved = not eh.mat_close(res.covariance.data, P)
+                if should and not unchanged:
+                    ctx.fail("discard-not-identity:badly-scaled" if not moved else "discard-missed:badly-scaled",
+                             f"exact NIS {nis!r} > threshold {thr!r} (innovation covariance with eigenvalues far apart): the reading must be "
+                             "discarded and estimate/covariance left exactly as they were", case)
+                elif not should and not moved:
+                    if eh.mat_close(np.array([[float(v) for v in r] for r in want["P"]]), P):
+                        ctx.count("update_indistinguishable_from_discard"); continue
+                    ctx.fail("discard-spurious:badly-scaled", f"exact NIS {nis!r} <= threshold {thr!r} (k={k}): the reading was discarded", case)
+                y_rec = np.asarray(ekf.innovations["s"], dtype=float)
+                if y_rec.shape != (m, 1) or not eh.mat_close(y_rec, [[v] for v in want["y"]]):
+                    ctx.fail("discard-innovation-not-recorded:badly-scaled", f"the innovation recorded for the reading, {y_rec.reshape(-1).tolist()}, "
+                             f"differs from z - h(x) = {[float(v) for v in want['y']]}", case)
 
 
 def estimator_follows_its_threshold(ctx):
